@@ -715,20 +715,17 @@ def resolveRest : Nat → List Part → Val → Bool → XM V
   | _, [], v, safe => pure ⟨v, safe⟩
   | fuel+1, part :: rest, v, safe => do
     -- method lookup before dereferencing
-    let method : Option Val := match part, v with
-      | .ident s _, .blockinfo fr name lvl => if s == b!"Super" then some (.blockinfo fr name (lvl + 1000000)) else none
+    let method : Option (Nat × Bytes × Nat) := match part, v with
+      | .ident s _, .blockinfo fr name lvl => if s == b!"Super" then some (fr, name, lvl) else none
       | _, _ => none
     let goMethod : Option (Bytes × Bool × GoSig) := match part with
       | .ident s _ => (goMethodOf v s).map fun (viaNil, sig) => (s, viaNil, sig)
       | _ => none
     match method, goMethod with
-    | some _, _ =>
+    | some (fid, name, lvl), _ => do
       -- `block.Super`: a bound method, called right away
-      match v with
-      | .blockinfo fid name lvl => do
-        let r ← callSuper fuel fid name lvl
-        if r.v.kind == .invalid then pure (mkV .nil) else resolveRest fuel rest r.v r.safe
-      | _ => xerr "unreachable" .panic
+      let r ← callSuper fuel fid name lvl
+      if r.v.kind == .invalid then pure (mkV .nil) else resolveRest fuel rest r.v r.safe
     | none, some (mname, viaNil, sig) =>
       -- a Go method: found before the pointer is followed, then called like any function
       if viaNil then pure (mkV .nil)   -- value-receiver method through a nil pointer
@@ -905,7 +902,9 @@ def execNode : Nat → Node → XM Unit
           throw e
     | .tagComment => pure ()
     | .tagCycle id args asName silent => do
-      if args.length == 0 then xerr "integer divide by zero" .panic
+      -- the parser rejects a cycle without arguments (`empty_cycle_is_rejected`); on such a node
+      -- the Go code would divide by zero
+      if args.length == 0 then xerr "cycle without arguments"
       else
         let st ← get
         let idx := (st.cycle.lookup id).getD 0
